@@ -7,18 +7,25 @@ import os
 import shutil
 import sys
 import tempfile
+import threading
 from pathlib import Path
 
 REPO = os.environ.get('RV_REPO', '/repo')
 if REPO not in sys.path:
     sys.path.insert(0, REPO)
 os.environ.setdefault('REPLICAT_VERIF', '1')
+import logging  # noqa: E402
+logging.getLogger('asyncio').setLevel(logging.CRITICAL)   # futures of simulated-killed processes are never retrieved
 
 from replicat import exceptions as rexc  # noqa: E402
 from replicat import repository as rrepo  # noqa: E402
 from replicat.repository import Repository  # noqa: E402
 
 from . import membackend  # noqa: E402
+
+# status lines go to stderr; they are not part of any property and cannot be captured per thread
+Repository.display_status = lambda self, message: None
+Repository.display_danger = lambda self, message: None
 
 FAST_KDF = {'n': 4}
 
@@ -55,9 +62,18 @@ class Outcome:
         return 'Outcome(ok=%s, %s)' % (self.ok, self.etype if not self.ok else type(self.value).__name__)
 
 
+_NOCAP = threading.local()
+
+
+@contextlib.contextmanager
+def _nocapture():
+    c = Captured()
+    yield c
+
+
 def attempt(coro):
     """run a command; exceptions (including simulated kills) become an Outcome"""
-    with capture() as c:
+    with (_nocapture() if getattr(_NOCAP, 'on', False) else capture()) as c:
         try:
             v = asyncio.run(coro)
         except BaseException as e:  # noqa: BLE001 - Killed is a BaseException on purpose
@@ -190,6 +206,26 @@ class World:
     def list_files(self, user, **args):
         kw = {k: args.pop(k) for k in ('backend', 'concurrent', 'cache') if k in args}
         return self.command(user, lambda r: r.list_files(**args), **kw)
+
+
+def run_parallel(thunks):
+    """run command thunks concurrently, one thread (= one event loop, one client process) each;
+    stdout is not captured in the threads. Returns the list of results."""
+    res = [None] * len(thunks)
+
+    def go(i, f):
+        _NOCAP.on = True
+        try:
+            res[i] = f()
+        except BaseException as e:  # noqa: BLE001
+            res[i] = e
+
+    ts = [threading.Thread(target=go, args=(i, f)) for i, f in enumerate(thunks)]
+    for t in ts:
+        t.start()
+    for t in ts:
+        t.join()
+    return res
 
 
 # ---------------------------------------------------------------- file trees
